@@ -103,9 +103,14 @@ func (t *TCCServiceProxy) registeBranch(ctx context.Context, params interface{})
 		tccContext.ActionContext[k] = v
 	}
 
-	applicationData, _ := json.Marshal(map[string]interface{}{
+	applicationData, err := json.Marshal(map[string]interface{}{
 		constant.ActionContext: actionContext,
 	})
+	if err != nil {
+		// registered without them, the branch would be committed or rolled back on an empty context
+		log.Errorf("the action context parameters cannot be recorded: %s", err.Error())
+		return err
+	}
 	branchId, err := rm.GetRMRemotingInstance().BranchRegister(rm.BranchRegisterParam{
 		BranchType:      branch.BranchTypeTCC,
 		ResourceId:      t.GetActionName(),
